@@ -86,6 +86,9 @@ func (s *faultSigner) Sign(r io.Reader, d []byte, o crypto.SignerOpts) ([]byte, 
 type faultReaderAt struct {
 	b    []byte
 	plan *faultPlan
+	// parsed: Parse has returned. While Parse runs, an early end of data simply presents a
+	// shorter file (Parse learns the length by reading to EOF); afterwards it is a failure.
+	parsed bool
 }
 
 func (f *faultReaderAt) ReadAt(p []byte, off int64) (int, error) {
@@ -100,6 +103,12 @@ func (f *faultReaderAt) ReadAt(p []byte, off int64) (int, error) {
 			n = copy(p[:len(p)/2], f.b[off:])
 		}
 		return n, io.ErrUnexpectedEOF
+	case "early-eof": // the data ends before the place it ended when the image was parsed
+		if off >= int64(len(f.b)) || len(p) == 0 || !f.parsed {
+			break // a genuine end of data, or the length is still being learnt: nothing to inject
+		}
+		f.plan.hit()
+		return copy(p[:len(p)/2], f.b[off:]), io.EOF
 	}
 	if off >= int64(len(f.b)) {
 		return 0, io.EOF
@@ -212,7 +221,7 @@ func c15Ops() []c15Op {
 	signed := c15SignedImage()
 	sigKinds := []string{"err"}
 	fsKinds := []string{"err", "short"}
-	rdKinds := []string{"err", "unexpected-eof"}
+	rdKinds := []string{"err", "unexpected-eof", "early-eof"}
 	blobValue := func(b []byte, det []byte) string {
 		if v := refp7.ParseAndValid(b, cert, det); !v.OK {
 			return "INVALID-SIGNATURE: " + v.Reason
@@ -279,10 +288,12 @@ func c15Ops() []c15Op {
 	imgOp := func(name string, data []byte, f func(p *authenticode.PECOFFBinary) c15Result) c15Op {
 		return c15Op{name, rdKinds, func(plan *faultPlan) c15Result {
 			// faults are armed for the whole operation including Parse
-			p, err := authenticode.Parse(&faultReaderAt{data, plan})
+			fr := &faultReaderAt{b: data, plan: plan}
+			p, err := authenticode.Parse(fr)
 			if err != nil {
 				return c15Result{err: err}
 			}
+			fr.parsed = true
 			return f(p)
 		}}
 	}
@@ -354,10 +365,12 @@ func c15Ops() []c15Op {
 			s1, s2 := s1, s2
 			ops = append(ops, c15Op{name: "one image object: " + s1.name + " under reader faults, then " + s2.name + " after the reader recovered", kinds: rdKinds, run: func(plan *faultPlan) c15Result {
 				plan.disarmed = true
-				p, err := authenticode.Parse(&faultReaderAt{signed, plan})
+				fr := &faultReaderAt{b: signed, plan: plan}
+				p, err := authenticode.Parse(fr)
 				if err != nil {
 					return c15Result{err: err}
 				}
+				fr.parsed = true
 				plan.disarmed = false
 				s1.f(p)
 				plan.disarmed = true
